@@ -110,7 +110,7 @@ var properties = map[string]*propSpec{
 	"C04": {
 		Title: "Retrieval never modifies the source document",
 		Checks: []checkSpec{
-			{Test: "TestC04_Snapshot", Quick: 30000, Thorough: 400000, Rapid: true},
+			{Test: "TestC04_Snapshot", Quick: 24000, Thorough: 400000, Rapid: true},
 			{Test: "TestC04_SharedDocRace", Quick: 150, Thorough: 3000, Rapid: true, Race: true, Flaky: true, Shards: 8},
 		},
 		Assumptions: assume("writes outside the value graph reachable from the source value are not observable", "the race detector reports only conflicting accesses that occur in the run"),
@@ -121,7 +121,7 @@ var properties = map[string]*propSpec{
 	"C05": {
 		Title: "A parsed function is pure: each call depends only on its argument",
 		Checks: []checkSpec{
-			{Test: "TestC05_History", Quick: 10000, Thorough: 150000, Rapid: true},
+			{Test: "TestC05_History", Quick: 8000, Thorough: 150000, Rapid: true},
 		},
 		Assumptions: assume(specAssumption, "histories are single-goroutine (concurrency is C06) and bounded at 8 / 16 operations"),
 		Floors: []floor{
